@@ -205,13 +205,63 @@ class Ctx:
         self.decls.append("(declare-const %s %s)" % (name, sort))
         return name
 
-    # floor division by a positive constant via the division lemma
+    # floor division by a positive constant via the division lemma.
+    # Sound normalisations that spare the solver from re-deriving Euclidean uniqueness with 2^96-size
+    # coefficients: (1) common factor of dividend `(* t K)` and divisor removed; (2) one (q, r) pair per
+    # (dividend, divisor); (3) a quotient or remainder that is divided again is linked to the division of the
+    # original dividend by the product (nested-floor identity), reusing / equating the existing pair.
     def floordiv_const(self, a, c):
         assert c > 0
+        if not hasattr(self, "divs"):
+            self.divs = {}      # (dividend, divisor) -> (q, r)
+            self.qinfo = {}     # quotient var -> (dividend, divisor, r)
+            self.rinfo = {}     # remainder var -> (dividend, divisor, q)
+        import math
+        m = re.match(r"^\(\* (.+) (\d+)\)$", a)
+        if m and try_eval(m.group(1)) is None:
+            t, K = m.group(1), int(m.group(2))
+            g = math.gcd(K, c)
+            if g > 1:
+                if K // g == 1:
+                    q, r2 = self.floordiv_const(t, c // g) if c // g > 1 else (t, "0")
+                else:
+                    q, r2 = self.floordiv_const("(* %s %d)" % (t, K // g), c // g) if c // g > 1 else ("(* %s %d)" % (t, K // g), "0")
+                return q, ("(* %s %d)" % (r2, g) if r2 != "0" else "0")
+        if c == 1:
+            return a, "0"
+        key = (a, c)
+        if key in self.divs:
+            return self.divs[key]
         q, r = self.fresh("q"), self.fresh("r")
         self.defs.append("(= %s (+ (* %d %s) %s))" % (a, c, q, r))
         self.defs.append("(and (<= 0 %s) (< %s %d))" % (r, r, c))
+        self.divs[key] = (q, r)
+        self.qinfo[q] = (a, c, r)
+        self.rinfo[r] = (a, c, q)
+        # (3a) a is itself a quotient: a = floor(x / A)  =>  q = floor(x / (A*c)), remainder A*r + r_prev
+        if a in self.qinfo:
+            x, A, rprev = self.qinfo[a]
+            self._link(x, A * c, q, "(+ (* %d %s) %s)" % (A, r, rprev))
+        # (3b) a is a remainder: a = x mod M with c | M  =>  floor(x / c) = (M/c) * qM + q ; x mod c = r
+        if a in self.rinfo:
+            x, M, qM = self.rinfo[a]
+            if M % c == 0:
+                self._link(x, c, "(+ (* %d %s) %s)" % (M // c, qM, q), r)
         return q, r
+
+    def _link(self, x, M, qterm, rterm):
+        key = (x, M)
+        if key in self.divs:
+            q0, r0 = self.divs[key]
+            self.defs.append("(= %s %s)" % (q0, qterm))
+            self.defs.append("(= %s %s)" % (r0, rterm))
+        else:
+            # register as a derived division fact (implied by the two lemma instances it comes from)
+            self.divs[key] = (qterm, rterm)
+            self.qinfo[qterm] = (x, M, rterm)
+            self.rinfo[rterm] = (x, M, qterm)
+            self.defs.append("(= %s (+ (* %d %s) %s))" % (x, M, qterm, rterm))
+            self.defs.append("(and (<= 0 %s) (< %s %d))" % (rterm, rterm, M))
 
     # truncated division (Rust `/`, `%`) by a non-zero constant
     def truncdiv_const(self, a, c):
@@ -253,12 +303,53 @@ class State:
         return s
 
 
+def try_eval(term):
+    """evaluate a term built from integer literals with + - * abs; None if it mentions a variable"""
+    toks = re.findall(r"\(|\)|[^\s()]+", term)
+    pos = [0]
+
+    def parse():
+        t = toks[pos[0]]
+        pos[0] += 1
+        if t == "(":
+            op = toks[pos[0]]
+            pos[0] += 1
+            args = []
+            while toks[pos[0]] != ")":
+                a = parse()
+                if a is None:
+                    return None
+                args.append(a)
+            pos[0] += 1
+            if op == "+":
+                return sum(args)
+            if op == "*":
+                r = 1
+                for a in args:
+                    r *= a
+                return r
+            if op == "-":
+                return -args[0] if len(args) == 1 else args[0] - sum(args[1:])
+            if op == "abs" and len(args) == 1:
+                return abs(args[0])
+            return None
+        if re.match(r"^\d+$", t):
+            return int(t)
+        return None
+
+    try:
+        v = parse()
+        return v if pos[0] == len(toks) else None
+    except Exception:
+        return None
+
+
 def is_const_int(term):
-    return re.match(r"^(\d+|\(- \d+\))$", term) is not None
+    return try_eval(term) is not None
 
 
 def const_val(term):
-    return int(term) if term[0] != "(" else -int(term[3:-1])
+    return try_eval(term)
 
 
 class Exec:
@@ -357,6 +448,11 @@ class Exec:
             return F64("(/ %s %d.0)" % (("%d.0" % fr.numerator) if fr.numerator >= 0 else "(- %d.0)" % (-fr.numerator), fr.denominator))
         if c == "()":
             return UNIT
+        m = re.match(r"^([iu](?:8|16|32|64|128|size))::(MIN|MAX)$", c)
+        if m:
+            sg, bits = parse_int(m.group(1))
+            lo, hi = rng(sg, bits)
+            return Int(lit(lo if m.group(2) == "MIN" else hi), sg, bits)
         m = re.search(r"Fixed([IU])(\d+)::<U(\d+)>::ZERO", c)
         if m:
             return Fx("0", m.group(1) == "I", int(m.group(2)), int(m.group(3)))
@@ -482,6 +578,34 @@ class Exec:
             k = const_val(b.term)
             q, r = self.ctx.floordiv_const(a.term, 1 << k)
             return Int(q, a.signed, a.bits)
+        if isinstance(a, Bool) and isinstance(b, Bool) and op in ("BitAnd", "BitOr", "BitXor"):
+            return Bool("(%s %s %s)" % ({"BitAnd": "and", "BitOr": "or", "BitXor": "xor"}[op], a.term, b.term))
+        if op in ("Div", "Rem") and isinstance(a, Int) and isinstance(b, Int):
+            # the MIR guards these with explicit assert(!Eq(b, 0)) / overflow asserts; the value is Rust's truncating division
+            cv = try_eval(b.term)
+            if cv is not None and cv != 0:
+                if not a.signed and cv > 0:
+                    q, r = self.ctx.floordiv_const(a.term, cv)
+                else:
+                    q, r = self.ctx.truncdiv_const(a.term, cv)
+            else:
+                q, r = self.ctx.truncdiv_sym(a.term, b.term)
+            return Int(q if op == "Div" else r, a.signed, a.bits)
+        if op in ("Add", "Sub", "Mul") and isinstance(a, Int) and isinstance(b, Int):
+            # unchecked arithmetic rvalue (the checked forms are *WithOverflow + assert): wrap like the machine does
+            o = {"Add": "+", "Sub": "-", "Mul": "*"}[op]
+            exact = "(%s %s %s)" % (o, a.term, b.term)
+            q, r = self.ctx.floordiv_const(exact, 1 << a.bits)
+            if a.signed:
+                return Int("(ite (>= %s %d) (- %s %d) %s)" % (r, 1 << (a.bits - 1), r, 1 << a.bits, r), True, a.bits)
+            return Int(r, False, a.bits)
+        if op == "BitAnd" and isinstance(a, Int) and isinstance(b, Int):
+            mv = try_eval(b.term)
+            if mv is not None and mv >= 0 and (mv & (mv + 1)) == 0:
+                # mask 2^k - 1: value mod 2^k (also for negative two's complement values)
+                q, r = self.ctx.floordiv_const(a.term, mv + 1)
+                return Int(r, a.signed, a.bits)
+            raise Unsupported("BitAnd with a non-mask operand")
         if op == "BitOr":
             # only the disjoint-bits idiom (hi << k) | lo with lo < 2^k is supported; the obligation checks disjointness
             return Int("(+ %s %s)" % (a.term, b.term), a.signed, a.bits) if True else None
@@ -591,7 +715,7 @@ class Exec:
         return res
 
 
-BINOPS = ("Add", "Sub", "Mul", "Div", "BitOr", "BitAnd", "Shl", "Shr", "Eq", "Ne", "Lt", "Le", "Gt", "Ge")
+BINOPS = ("Add", "Sub", "Mul", "Div", "Rem", "BitOr", "BitAnd", "BitXor", "Shl", "Shr", "Eq", "Ne", "Lt", "Le", "Gt", "Ge")
 
 
 def parse_place(text):
